@@ -60,6 +60,9 @@ def fitted_order(eps, err, floor):
             break
     if len(run) < 3 or run[0] != 0:
         return None
+    # the statement is about eps -> 0: fit the tail of the run (the four smallest eps above the rounding floor); the largest
+    # eps values can still be outside the asymptotic regime on steep lenses
+    run = run[-4:]
     p = np.polyfit(np.log(eps[run]), np.log(err[run]), 1)
     return float(p[0])
 
